@@ -102,9 +102,13 @@ def main():
     out = open(outp, "w")
     if hasattr(mod, "worker_init"):
         mod.worker_init(tier, seed)
+    idx_done = 0
+    last_idx = -1
     for idx in range(shard, ncases, nshards):
         if time.time() - t0 > wall:
             break
+        idx_done += 1
+        last_idx = idx
         rng = case_rng(seed, pid, idx)
         try:
             payload = mod.make_payload(rng, idx, tier)
@@ -141,7 +145,7 @@ def main():
     out.write(json.dumps({
         "t": "sum", "evaluations": evaluations, "digests": sorted(digests),
         "tallies": {k: dict(c) for k, c in tallies.items()}, "monitors": dict(mons),
-        "samples": samples, "extra": extra,
+        "samples": samples, "extra": extra, "idx_done": idx_done, "last_idx": last_idx,
     }, default=str) + "\n")
     out.close()
 
